@@ -259,7 +259,9 @@ TStep == /\ l <= Len(Tr) /\ Ev.e # "Reset" /\ ~skip
                                                            !.failed = IF Has("st") /\ Ev.st # 0 THEN @ + 1 ELSE @]
                ELSE /\ bad' = Append(bad, [l |-> l, id |-> Ev.id, e |-> Ev.e, why |-> v,
                                             detail |-> IF Ev.e = "File" /\ wst = "closed" /\ f.ok /\ TableMatches(TableOf(f))
-                                                       THEN FileDetail(f) ELSE [none |-> TRUE]])
+                                                       THEN FileDetail(f)
+                                                       ELSE IF Ev.e \in {"ColStats", "Query", "Compare", "Overlaps", "PageMatch"} THEN Ev
+                                                       ELSE [none |-> TRUE]])
                     /\ stats' = (IF Ev.e = "File" THEN Count(f) ELSE stats)
                     \* events judged against the current file / on their own do not invalidate what follows
                     /\ skip' = (Ev.e \notin {"ColStats", "Query", "Compare", "Overlaps", "PageMatch", "Build"})
